@@ -499,6 +499,14 @@ class Replay:
                 with open(path, 'w') as fh:
                     fh.write(self._text(a, v, p))
                 self.emit(ev, [a, v, p])
+        elif ev == 'PriorEmpty':
+            a = e[1]
+            path = os.path.join(self.cache, real_name(a))
+            if self.pc == 'down' and not os.path.exists(path):
+                with open(path, 'w'):
+                    pass
+                self.blanks = getattr(self, 'blanks', []) + [a]
+                self.emit(ev, [a])
         elif ev == 'PriorTmp':
             if self.pc == 'down':
                 a = e[1]
@@ -539,7 +547,8 @@ class Replay:
 
     def _start_log(self):
         self.logging = True
-        self.emit('Init', [], ag=dict(pc='idle' if self.pc == 'synced' else self.pc, first=self.first))
+        self.emit('Init', [], ag=dict(pc='idle' if self.pc == 'synced' else self.pc, first=self.first),
+                  blank0=list(getattr(self, 'blanks', [])))
 
     # -- the recorded sync ---------------------------------------------------
     def sync(self, opts):
@@ -1011,7 +1020,7 @@ def from_labels(labels):
                 cur['conc'].setdefault(steps, []).append([ev] + list(args))
             else:
                 hist.append([ev] + list(args))
-        elif ev in ('PriorFile', 'PriorTmp', 'Boot', 'Restart'):
+        elif ev in ('PriorFile', 'PriorTmp', 'PriorEmpty', 'Boot', 'Restart'):
             hist.append([ev] + list(args))
         elif ev == 'SyncBegin':
             cur, steps = dict(conc={}, cut=None), 0
@@ -1164,6 +1173,35 @@ def gen_vanish(rng, position=None):
     hist.append(['Boot'])
     hist.append(['Sync', dict(conc={0: [['Unplace', a] for a in gone]}, cut=None,
                               run=rng.random() < 0.5)])
+    hist.append(['Sync', {}])
+    return hist
+
+
+def gen_blank(rng):
+    """The cache directory's prior life left ZERO-LENGTH files named after instances (a full disk, an
+    interrupted write of an older version): one for an instance that is not placed on this node (any
+    more) - the first synchronisation must unlink it like any other extra entry - next to ordinary
+    prior files, placed instances and leftovers."""
+    names = rng.sample(INSTS[:8], rng.randrange(1, 4))
+    hist = []
+    for a in names:
+        hist.append(['SetMan', a, rng.choice([1, 1, 3, 4])])
+        hist.append(['Place', a, rng.choice(PVERS), False])
+        if rng.random() < 0.5:
+            hist.append(['PriorFile', a, 1, 1])
+    extra = [a for a in INSTS[:8] if a not in names]
+    blanks = rng.sample(extra, rng.randrange(1, 3))
+    for a in blanks:
+        if rng.random() < 0.5:
+            hist.append(['SetMan', a, 1])            # still scheduled, placed elsewhere
+        hist.append(['PriorEmpty', a])
+    if rng.random() < 0.4:
+        hist.append(['PriorFile', rng.choice([a for a in extra if a not in blanks]), 1, 1])
+    if rng.random() < 0.3:
+        hist.append(['PriorTmp', rng.choice(names)])
+    rng.shuffle(hist)
+    hist.append(['Boot'])
+    hist.append(['Sync', dict(run=rng.random() < 0.5)])
     hist.append(['Sync', {}])
     return hist
 
